@@ -15,7 +15,7 @@ use std::time::{Duration, Instant};
 pub fn meta() -> Meta {
     Meta {
         rule: "histories of 6..14 steps over add-authoritative, receive-from-network(ttl in {0,1,2,1000,2^31-1,2^31,2^32-1}, cache-flush; either add_cached_resource directly or a response packet through the real sync / tokio ingest functions, with and without on_discovery channel), re-add, remove, clear and real sleeps of {0, 0.4, 1.1, 2.1} s \
-on 12 record identities (under each name two of class IN that differ in RDATA only and one of class CS / CH / HS / NONE) under collision-free names (x, a.x, b.x, c.a.x); after every step the store is queried with the authoritative (with/without subdomains), cached \
+on 12 record identities (under each name two of class IN that differ in RDATA only and one of class CS / CH / HS / NONE with the RDATA of the first) under collision-free names (x, a.x, b.x, c.a.x); after every step the store is queried with the authoritative (with/without subdomains), cached \
 and combined filters. Every library call is bracketed by two Instant readings; the model keeps per identity Authoritative | Cached{added in [a0,a1], effective ttl}. \
 Cached record: must be returned if the query ended before a0+ttl, must not be returned if it began at or after a1+ttl (in between either); authoritative: always by \
 authoritative/all filters, never by the cached filter; removed/cleared/foreign-name records never. Authoritative is sticky against a later add-cached. Histories run in \
@@ -61,7 +61,8 @@ fn identities() -> Vec<RecSem> {
     for (i, n) in names().into_iter().enumerate() {
         for k in 1..=3u64 {
             let class = if k <= 2 { 1 } else { [3u16, 4, 254, 2][i % 4] };
-            v.push(RecSem { name: n.clone(), rtype: 1, class, flush: false, ttl: 0, rd: Rd::Fields(vec![F::Int(k)]) });
+            // (the identity of another class carries the same RDATA as the first one: the class alone tells them apart)
+            v.push(RecSem { name: n.clone(), rtype: 1, class, flush: false, ttl: 0, rd: Rd::Fields(vec![F::Int(if k == 3 { 1 } else { k })]) });
         }
     }
     v
